@@ -576,6 +576,95 @@ func genFlushHist(r *rand.Rand, id int) HCase {
 	return c
 }
 
+// ------------------------------------------------------------------ the client's retry of a request sent in several chunks
+//
+// retryPattern: one request of M chunks (every chunk announces series no other chunk of the request has), the insert
+// FailTs / FailSpl of chunk Fail fails (Fail = -1: the series insert of EVERY chunk fails, the samples inserts work), the
+// request is answered 5xx; then the client comes again. What doParse enters into the announcement cache after such a
+// request decides whether the second attempt still writes the series rows: the histories are enumerated over every
+// (number of chunks, failing chunk, failing insert), so that a confirmation that looks at the wrong promise of the
+// wrong chunk has a history in which exactly that promise differs from the chunk's own series insert.
+type retryPattern struct {
+	M       int
+	Fail    int
+	FailTs  bool
+	FailSpl bool
+}
+
+func retryPatterns() []retryPattern {
+	var ps []retryPattern
+	for m := 2; m <= 4; m++ {
+		ps = append(ps, retryPattern{M: m, Fail: -1, FailTs: true})
+		for j := 0; j < m; j++ {
+			ps = append(ps, retryPattern{M: m, Fail: j, FailTs: true}, retryPattern{M: m, Fail: j, FailSpl: true},
+				retryPattern{M: m, Fail: j, FailTs: true, FailSpl: true})
+		}
+	}
+	return ps
+}
+
+func genRetryHist(r *rand.Rand, id int, p retryPattern) HCase {
+	c := HCase{ID: id, Class: "flush+retry"}
+	inst := r.Intn(900)
+	fresh := func() Stream {
+		inst++
+		s := Stream{Labels: [][2]string{{"app", "c04"}, {"instance", "i" + strconv.Itoa(inst)}}}
+		t := []int{1, 1, 1, 0, 2}[r.Intn(5)]
+		for i, n := 0, 1+r.Intn(2); i < n; i++ {
+			s.Entries = append(s.Entries, Entry{Ts: genTs(r), T: t})
+		}
+		return s
+	}
+	chunks := make([][]Stream, p.M)
+	var all []Stream
+	for j := range chunks {
+		for i, n := 0, 1+r.Intn(3); i < n; i++ {
+			chunks[j] = append(chunks[j], fresh())
+		}
+		if j > 0 && r.Intn(3) == 0 {
+			// a series of an earlier chunk again: the request announced it already
+			chunks[j] = append(smallCopy(all[r.Intn(len(all)):][:1]), chunks[j]...)
+		}
+		all = append(all, chunks[j]...)
+	}
+	// the last chunk goes out when the body ends; sometimes it is empty (the body ends right after a flush)
+	lastEmpty := r.Intn(4) == 0 && p.Fail != p.M-1
+	request := func(k int, faults bool) {
+		for j := 0; j < p.M; j++ {
+			tsOK := !(faults && p.FailTs && (p.Fail == j || p.Fail < 0))
+			splOK := !(faults && p.FailSpl && p.Fail == j)
+			switch {
+			case j == 0:
+				c.Steps = append(c.Steps, Step{K: "beginf", Idx: k, Streams: withBig(r, chunks[j]), TsOK: tsOK, SplOK: splOK})
+			case j < p.M-1 || lastEmpty:
+				c.Steps = append(c.Steps, Step{K: "moref", Idx: k, Streams: withBig(r, chunks[j]), TsOK: tsOK, SplOK: splOK})
+				if j == p.M-1 {
+					c.Steps = append(c.Steps, Step{K: "end", Idx: k, TsOK: true, SplOK: true})
+				}
+			default:
+				c.Steps = append(c.Steps, Step{K: "more", Idx: k, Streams: smallCopy(chunks[j]), TsOK: true, SplOK: true},
+					Step{K: "end", Idx: k, TsOK: tsOK, SplOK: splOK})
+			}
+		}
+	}
+	request(0, true)
+	if r.Intn(4) == 0 {
+		// something else happens in between: another client's push of other series
+		c.Steps = append(c.Steps, Step{K: "push", TsOK: true, SplOK: true, Streams: []Stream{fresh()}})
+	}
+	switch r.Intn(3) {
+	case 0: // the same long request again
+		request(0, false)
+	case 1: // the streams of the request, without the big lines, as one push
+		c.Steps = append(c.Steps, Step{K: "push", TsOK: true, SplOK: true, Streams: smallCopy(all), Retry: true})
+	default: // chunk by chunk, later chunks first
+		for j := p.M - 1; j >= 0; j-- {
+			c.Steps = append(c.Steps, Step{K: "push", TsOK: true, SplOK: true, Streams: smallCopy(chunks[j])})
+		}
+	}
+	return c
+}
+
 func genHist(r *rand.Rand, id int) HCase {
 	if r.Intn(6) == 0 {
 		return genFlushHist(r, id)
@@ -789,6 +878,22 @@ func runHist(f *hx.Flags, out *hx.Out) {
 	id := f.N
 	for _, col := range findCollisions(rnd, 300000) {
 		for _, c := range collisionHists(col, &id) {
+			runHistCase(r, &c)
+			out.Put(c)
+		}
+	}
+	// a request of 2..4 chunks with one failing insert (every position), then the client's second attempt
+	reps := f.N / 250
+	if reps < 1 {
+		reps = 1
+	}
+	if reps > 20 {
+		reps = 20
+	}
+	for k := 0; k < reps; k++ {
+		for _, p := range retryPatterns() {
+			c := genRetryHist(rnd, id, p)
+			id++
 			runHistCase(r, &c)
 			out.Put(c)
 		}
